@@ -189,3 +189,15 @@ def violation_kinds(case, rr, allowed=None, scenario=None, mode=None, err_contai
     if err_contains and not any(err_contains in e for e in obs.get("err") or [] if isinstance(e, str)):
         return False
     return all(x["kind"] in allowed for x in v)
+
+
+@matcher
+def c18_argv(case, rr, argv_contains=None, category=None, got=None):
+    p = case.get("params", {})
+    argv = p.get("argv") or []
+    if any(a not in argv for a in argv_contains or []):
+        return False
+    if category and p.get("category") != category:
+        return False
+    obs = rr.get("observed") or {}
+    return got is None or obs.get("code") == got
